@@ -112,13 +112,9 @@ def _wiring(ctx):
             ctx.check(sl.has_call("CommandInfo::get_key") and (sl.has_call("generate_slot") or any(c.get("fn", "").endswith("generate_slot") for c in sl.consts)), "C09.D1", "command-slot-from-its-key", site(ci, bb, i), ok="slot = generate_slot(get_key(..))", bad="the command's slot is not generate_slot of its key")
 
 
-def _hash_tag(ctx):
-    F = ctx.F
-    b = F.one("common::utils::get_hash_tag")
-    if b is None:
-        ctx.lost("C09.D2", "get_hash_tag", "not found")
-        return
-    ctx.analysed(b, *F.children(b))
+def hash_tag_eval(F, b):
+    """get_hash_tag evaluated by the abstract interpreter on all 364 keys over {a,{,}} up to length 5:
+    returns (wrong results, keys without a constant result - e.g. a panic -, number of keys)"""
     bad = []
     undec = []
     n = 0
@@ -135,6 +131,17 @@ def _hash_tag(ctx):
                 undec.append(k)
             elif got != _ref_tag(k):
                 bad.append((k, got, _ref_tag(k)))
+    return bad, undec, n
+
+
+def _hash_tag(ctx):
+    F = ctx.F
+    b = F.one("common::utils::get_hash_tag")
+    if b is None:
+        ctx.lost("C09.D2", "get_hash_tag", "not found")
+        return
+    ctx.analysed(b, *F.children(b))
+    bad, undec, n = hash_tag_eval(F, b)
     ctx.paths += n
     if undec:
         ctx.lost("C09.D2", "hash-tag-table", "the hash tag of %d/%d sample keys is not a constant under the models (first: %r)" % (len(undec), n, undec[0]))
